@@ -2,6 +2,7 @@ package sim
 
 import (
 	"fmt"
+	"os"
 	"sort"
 
 	"verifsim/refotr"
@@ -14,7 +15,7 @@ import (
 
 const c19Slack = 2048 // bytes of growth per doubling tolerated (big.Int length jitter, amortised slice growth)
 
-var c19Patterns = []string{"ping-pong", "one-directional", "bursts", "forged-flood", "refresh", "smp", "errors", "garbage-flood"}
+var c19Patterns = []string{"ping-pong", "one-directional", "bursts", "forged-flood", "refresh", "smp", "errors", "garbage-flood", "one-way-delay", "error-refresh-idle", "forged-interleaved"}
 
 func init() {
 	Register(&PropDef{
@@ -53,12 +54,14 @@ func c19Run(rc *RunCtx) *Violation {
 	pr := Fork(rc.Seed, "c19", 0)
 	maxMsg := [2]int{}
 	w.Observers = append(w.Observers, func(p *Party, r *CallResult) {
-		if r.Kind != "send" {
-			return
-		}
 		n := 0
 		for _, o := range r.Out {
-			n += len(o)
+			if dataTyped(o) || r.Kind == "send" {
+				n += len(o)
+			}
+		}
+		if r.Kind == "smpstart" || r.Kind == "smpanswer" || r.HasEvent("smp", "InProgress") || r.HasEvent("smp", "AskForSecret") || r.HasEvent("smp", "Success") {
+			return // SMP payloads are long but of constant size; not the messages compared here
 		}
 		if n > maxMsg[p.Idx] {
 			maxMsg[p.Idx] = n
@@ -95,6 +98,9 @@ func c19Run(rc *RunCtx) *Violation {
 	}
 	quiesce := func() {
 		w.Drain(100000)
+		if pat == "error-refresh-idle" {
+			return
+		}
 		for i := 0; i < 2; i++ {
 			send(a)
 			w.Drain(100000)
@@ -160,6 +166,31 @@ func c19Run(rc *RunCtx) *Violation {
 				w.Drain(100000)
 				w.Fault("smp-run")
 			}
+		case "one-way-delay":
+			// both keep sending; B's messages reach A at once, A's only at the checkpoints
+			send(a)
+			send(b)
+			for w.InFlight(1, 0) > 0 {
+				w.Deliver(w.Take(1, 0, 0))
+			}
+		case "error-refresh-idle":
+			// the user wrote once; from then on the peer keeps reporting errors and re-keying
+			if i == 1 {
+				send(a)
+				w.Drain(100000)
+			}
+			a.Receive([]byte("?OTR Error: could not read that"))
+			w.Tick(tickDur[3])
+			w.Put(1, 0, b.Query(), true, -1, -1, "query")
+			w.Drain(100000)
+			w.Fault("error+refresh")
+		case "forged-interleaved":
+			// forged messages naming the other live key pair between own sends, no rotation in between
+			send(a)
+			forged(0)
+			if i%8 == 0 {
+				w.Drain(100000)
+			}
 		case "errors":
 			send(w.P[i%2])
 			w.Drain(100000)
@@ -189,12 +220,14 @@ func c19Run(rc *RunCtx) *Violation {
 	}
 	// verdict: growth above slack at every doubling (from the second sample on)
 	for k := 0; k < 2; k++ {
-		growAll, msgAll := len(samples) >= 3, len(samples) >= 3
+		growAll, msgAll := len(samples) >= 4, len(samples) >= 4
 		series, mseries := "", ""
 		for i := range samples {
 			series += fmt.Sprintf(" n=%d:%d", samples[i].n, samples[i].total[k])
 			mseries += fmt.Sprintf(" n=%d:%d", samples[i].n, samples[i].msg[k])
-			if i == 0 {
+			if i <= 1 {
+				// the first two segments (1..n/8 and n/8+1..n/4) are equally long; what accumulates
+				// within a segment shows from the third sample on
 				continue
 			}
 			if samples[i].total[k]-samples[i-1].total[k] <= c19Slack {
@@ -203,6 +236,9 @@ func c19Run(rc *RunCtx) *Violation {
 			if samples[i].msg[k]-samples[i-1].msg[k] <= 64 {
 				msgAll = false
 			}
+		}
+		if os.Getenv("VERIF_VERBOSE") != "" {
+			fmt.Printf("C19DBG %s %s size:%s | msg:%s\n", pat, w.P[k].Name, series, mseries)
 		}
 		if growAll {
 			// which part of the conversation grows
